@@ -198,6 +198,9 @@ func (x *X) WorldViolation(prop string, w *vsim.World) *Violation {
 			return nil
 		}
 	}
+	if w.DoublePuts > 0 {
+		return &Violation{Prop: prop, Sig: "pool-double-put", Detail: fmt.Sprintf("an object was returned to a sync.Pool that already held it (%d times): two later Gets hand the same object to two users", w.DoublePuts)}
+	}
 	if w.NPanics > 0 {
 		p := w.Panics[0]
 		return &Violation{Prop: prop, Sig: "panic:" + panicSite(p.Stack, p.Val), Detail: fmt.Sprintf("panic in task %d: %s\n%s", p.Task, p.Val, trimStack(p.Stack))}
@@ -272,6 +275,9 @@ type ReplayFile struct {
 	// WarmupOnly: the race report fired during the fixed warm-up operation list
 	// every process executes first (replay = run the warm-up).
 	WarmupOnly bool `json:"warmup_only,omitempty"`
+	// Cold: the run was the first use of the library in its process (no warm-up);
+	// replay does the same.
+	Cold bool `json:"cold,omitempty"`
 	Minimised struct {
 		From int `json:"decisions_before"`
 		To   int `json:"non_default_decisions_after"`
